@@ -59,6 +59,7 @@ Example C07_carry_witness : int_of_content [xff; x00; x00] = Ok (-65536)%Z /\ in
 Proof. split; reflexivity. Qed.
 
 Print Assumptions C07_reader_is_twos_complement.
+Print Assumptions C07_reader_empty_is_value_error.
 Print Assumptions C07_writer_minimal_twos_complement.
 Print Assumptions C07_integer_roundtrip.
 Print Assumptions C07_header_roundtrip.
